@@ -1643,6 +1643,9 @@ impl TInputProtocol for TCompactInputProtocol<&mut Bytes> {
 
     #[inline]
     fn read_bool(&mut self) -> Result<bool, ThriftException> {
+        // The bool field announced through `field_begin_len` is complete once its value
+        // has been read (the value lives in the field header).
+        self.pending_read_bool_field_identifier = None;
         match self.pending_read_bool_value.take() {
             Some(b) => Ok(b),
             None => {
